@@ -294,6 +294,24 @@ impl Monitor for C07 {
                 }
             }
         }
+        // the ledger follows the contract's own snapshots: make sure they at least cover the LP the
+        // user has in open positions (a position's weight is never below its amount), otherwise the
+        // share the user is paid is not "their weight" at all
+        if is_pos_op {
+            let mut open_amt: BTreeMap<(String, String), u128> = BTreeMap::new();
+            for p in post.positions.iter().filter(|p| p.open) {
+                *open_amt.entry((p.receiver.to_string(), p.lp_asset.denom.clone())).or_insert(0) += p.lp_asset.amount.u128();
+            }
+            for (k, amt) in open_amt.iter() {
+                let newest = self.uw.get(k).and_then(|h| h.values().next_back().copied()).unwrap_or(0);
+                if newest + 16 < *amt {
+                    return Err(viol(
+                        "C07.weight_not_credited",
+                        format!("{} has {amt} LP of {} in open positions but a recorded weight of only {newest} after {}", c.w.a.name(&k.0), k.1, step.op.kind()),
+                    ));
+                }
+            }
+        }
         // users that left an LP token entirely lose their history there; no open position at all
         // clears the cursor (documented reconcile behaviour)
         let mut open_by: BTreeMap<String, Vec<String>> = BTreeMap::new();
